@@ -43,3 +43,14 @@ Theorem C08_bad_weight_unique : forall (K : Fld), FldOk K -> forall (M : Mod K),
   forall (w w' : K) (R rest : M), R <> v0 M -> vadd M (smul M w R) rest = v0 M -> vadd M (smul M w' R) rest = v0 M -> w = w'.
 Proof. exact bad_weight_unique. Qed.
 Print Assumptions C08_bad_weight_unique.
+
+(** the batch weights are drawn by the reject-zero loop: every weight is non-zero, and they are the first n
+    non-zero outputs of the weight RNG in order (so weight p belongs to proof p) *)
+From BP Require Import Base.Field Model.RejectZero Proofs.RejectZeroP.
+Theorem C08_weights_nonzero : forall (K : Fld), FldOk K -> forall (draws : list K) n, Forall (fun d => d <> f0 K) (take_nonzero K n draws).
+Proof. exact take_nonzero_nonzero. Qed.
+Print Assumptions C08_weights_nonzero.
+Theorem C08_weights_are_first_nonzero_draws : forall (K : Fld) (draws : list K) n,
+  take_nonzero K n draws = firstn n (filter (fun d => negb (is_zero K d)) draws).
+Proof. exact take_nonzero_spec. Qed.
+Print Assumptions C08_weights_are_first_nonzero_draws.
